@@ -32,6 +32,7 @@ Definition spec_code (c : case) : N :=
       else 0%N
   | ResumeCase ins r offered acc resumed deliv =>
       if acc && resumed && negb ins && negb (rv_sess_chain_ok r) then 7%N      (* resumed a session whose certificates fail now *)
+      else if acc && negb (rv_fin_ok r) then 8%N                               (* completed with a peer whose Finished is not computed from the session's master secret *)
       else if negb acc && deliv then 6%N
       else 0%N
   end.
